@@ -72,10 +72,9 @@ class Software:
             oversion, opatch = mx.group(1), mx.group(2).strip()
         else:
             oversion, opatch = other, ''
-        if self.version < oversion:
-            return -1
-        elif self.version > oversion:
-            return 1
+        vcmp = Software.compare_version_strings(self.version, oversion)
+        if vcmp != 0:
+            return vcmp
         spatch = self.patch or ''
         if self.product == Product.DropbearSSH:
             if not re.match(r'^test\d.*$', opatch):
@@ -98,6 +97,18 @@ class Software:
         elif spatch > opatch:
             return 1
         return 0
+
+    @staticmethod
+    def compare_version_strings(v1: str, v2: str) -> int:
+        '''Compares two dot-separated version strings component by component as numbers (so that "10.0" is newer than "9.9").  Falls back to a plain string comparison when a component is not a decimal number.  Returns -1, 0, or 1.'''
+        k1: Any = v1
+        k2: Any = v2
+        try:
+            k1 = [int(x) for x in v1.split('.')]
+            k2 = [int(x) for x in v2.split('.')]
+        except ValueError:
+            k1, k2 = v1, v2
+        return (k1 > k2) - (k1 < k2)
 
     def between_versions(self, vfrom: str, vtill: str) -> bool:
         if bool(vfrom) and self.compare_version(vfrom) < 0:
